@@ -20,6 +20,17 @@ class SUNCudaThreadDirectExecPolicy : public SUNCudaExecPolicy {
     size_t blockDim_;
     cudaStream_t stream_;
 };
+class SUNCudaBlockReduceExecPolicy : public SUNCudaExecPolicy {
+   public:
+    SUNCudaBlockReduceExecPolicy(const size_t blockDim, const size_t gridDim = 0, const cudaStream_t stream = 0)
+        : blockDim_(blockDim), gridDim_(gridDim), stream_(stream) {}
+    size_t gridSize(size_t numWorkUnits = 0, size_t = 0) const { return gridDim_ ? gridDim_ : (numWorkUnits + blockDim_ * 2 - 1) / (blockDim_ * 2); }
+    size_t blockSize(size_t = 0, size_t = 0) const { return blockDim_; }
+    const cudaStream_t *stream() const { return &stream_; }
+   private:
+    size_t blockDim_, gridDim_;
+    cudaStream_t stream_;
+};
 struct _N_VectorContent_Cuda {
     sunindextype length;
     SUNCudaExecPolicy *stream_exec_policy;
@@ -32,4 +43,8 @@ realtype *N_VGetDeviceArrayPointer_Cuda(N_Vector v);
 realtype *N_VGetHostArrayPointer_Cuda(N_Vector v);
 void N_VSpace_Cuda(N_Vector v, sunindextype *lrw, sunindextype *liw);
 void N_VDestroy_Cuda(N_Vector v);
+N_Vector N_VNewEmpty_Cuda(SUNContext sunctx);
+void N_VSetHostArrayPointer_Cuda(realtype *h_vdata, N_Vector v);
+void N_VCopyToDevice_Cuda(N_Vector v);
+void N_VCopyFromDevice_Cuda(N_Vector v);
 #endif
